@@ -12,7 +12,6 @@ from jax2onnx.ir_utils import numpy_dtype_to_ir
 from jax2onnx.plugins._post_check_onnx_graph import expect_graph as EG
 from jax2onnx.plugins.plugin_system import PrimitiveLeafPlugin, register_primitive
 
-
 _SIGNED_TO_UNSIGNED: dict[ir.DataType, tuple[ir.DataType, np.dtype[Any], int]] = {
     ir.DataType.INT8: (ir.DataType.UINT8, np.dtype(np.uint8), 8),
     ir.DataType.INT16: (ir.DataType.UINT16, np.dtype(np.uint16), 16),
@@ -137,12 +136,87 @@ class ShiftRightArithmeticPlugin(PrimitiveLeafPlugin):
             ir.DataType.UINT32,
             ir.DataType.UINT64,
         }:
-            result = ctx.builder.BitShift(
-                lhs_val,
+            # lax.shift_right_arithmetic replicates the TOP BIT of the element also for unsigned
+            # element types (uint8 128 >> 1 == 192), so a plain logical BitShift is not enough:
+            #   result = (x >> sc) | (ones << (bits - sc)) * (sc != 0) * (x >> (bits - 1))
+            u_np: np.dtype[Any] = np.dtype(prefer_dtype)
+            u_bits = u_np.itemsize * 8
+            u_enum = signed_enum
+
+            def _uconst(value: int) -> ir.Value:
+                return ctx.bind_const_for_var(object(), np.asarray(value, dtype=u_np))
+
+            def _u(value: ir.Value, ref: ir.Value) -> ir.Value:
+                self._stamp_like(value, ref, dtype=u_enum)
+                return value
+
+            bits_c = _uconst(u_bits)
+            sc = _u(
+                ctx.builder.Min(
+                    rhs_val, bits_c, _outputs=[ctx.fresh_name("sra_shift_clamped")]
+                ),
                 rhs_val,
-                direction="RIGHT",
-                _outputs=[desired_name],
             )
+            shifted_u = _u(
+                ctx.builder.BitShift(
+                    lhs_val,
+                    sc,
+                    direction="RIGHT",
+                    _outputs=[ctx.fresh_name("sra_shifted")],
+                ),
+                lhs_val,
+            )
+            n_minus_s_u = _u(
+                ctx.builder.Sub(bits_c, sc, _outputs=[ctx.fresh_name("sra_n_minus_s")]),
+                rhs_val,
+            )
+            mask_raw_u = _u(
+                ctx.builder.BitShift(
+                    _uconst(int(np.iinfo(u_np).max)),
+                    n_minus_s_u,
+                    direction="LEFT",
+                    _outputs=[ctx.fresh_name("sra_sign_mask_raw")],
+                ),
+                rhs_val,
+            )
+            is_zero_u = ctx.builder.Equal(
+                sc, _uconst(0), _outputs=[ctx.fresh_name("sra_is_zero_shift")]
+            )
+            self._stamp_like(is_zero_u, rhs_val, dtype=ir.DataType.BOOL)
+            nonzero_b = ctx.builder.Not(
+                is_zero_u, _outputs=[ctx.fresh_name("sra_nonzero_shift")]
+            )
+            self._stamp_like(nonzero_b, rhs_val, dtype=ir.DataType.BOOL)
+            nonzero_u = _u(
+                ctx.builder.Cast(
+                    nonzero_b,
+                    to=int(u_enum.value),
+                    _outputs=[ctx.fresh_name("sra_nonzero_shift_u")],
+                ),
+                rhs_val,
+            )
+            sign_mask_u = _u(
+                ctx.builder.Mul(
+                    mask_raw_u, nonzero_u, _outputs=[ctx.fresh_name("sra_sign_mask")]
+                ),
+                rhs_val,
+            )
+            top_bit = _u(
+                ctx.builder.BitShift(
+                    lhs_val,
+                    _uconst(u_bits - 1),
+                    direction="RIGHT",
+                    _outputs=[ctx.fresh_name("sra_top_bit")],
+                ),
+                lhs_val,
+            )
+            fill = _u(
+                ctx.builder.Mul(
+                    sign_mask_u, top_bit, _outputs=[ctx.fresh_name("sra_fill")]
+                ),
+                lhs_val,
+            )
+            result = ctx.builder.BitwiseOr(shifted_u, fill, _outputs=[desired_name])
             self._stamp_like(result, out_spec)
             ctx.bind_value_for_var(out_var, result)
             return
